@@ -18,8 +18,20 @@ def classify(case, kind):
 
 
 def run(ctx):
+    # the real CLI binary, rebuilt from the working tree (incremental: < 1 s when nothing changed), for the
+    # end-to-end cases (check.rs::Operations as the resolver); without it the run still covers the library
+    extra = []
+    try:
+        ok, cli = vlib.cli_build(ctx)
+        if ok:
+            extra = ["--cli", cli]
+        else:
+            ctx.notes.append("nitrogql-cli did not build: end-to-end cases skipped")
+    except Exception as e:  # noqa
+        ctx.notes.append("nitrogql-cli build failed (%r): end-to-end cases skipped" % (e,))
     return vlib.standard_check(
         ctx,
+        harness_extra=extra,
         targets=["C13/Properties.vo", "C13/Corr.vo"],
         pinned="C13/Pinned.v",
         binname="c13",
